@@ -274,7 +274,7 @@ def read_back(sysm, man, out):
                 e = complete[sp].exchange_map(m).atoms_positions
                 ok_pos = compare_positions(d, pos, e, sysm.mol_pos[k])
         ev.append({'op': 'Mol', 'src': (k + 1) if k is not None else 0, 'first': nrs[0], 'n': len(seg),
-                   'consecutive': nrs == list(range(nrs[0], nrs[0] + len(seg))), 'resids': bool(ok_res), 'pos': bool(ok_pos), 'sp': sp})
+                   'consecutive': nrs == [(nrs[0] + i_) % 100000 for i_ in range(len(seg))], 'resids': bool(ok_res), 'pos': bool(ok_pos), 'sp': sp})
         p += d['tn']
     want_box = list(sysm.box)
     ev.append({'op': 'Close', 'natoms': declared if declared == len(recs) else -1, 'title': title == sysm.title,
@@ -359,14 +359,27 @@ def _work_random(args):
             for s in unloaded:
                 species[s]['unloaded'] = True
             nm = int(rng.integers(1, 401 if thorough else 121))
+            if tid % 150 == 7:
+                # an output of more than 100000 atoms (a few coarse molecules with a very fine image): the atom numbers wrap
+                # as the five columns of the format demand (..., 99999, 0, 1, ...)
+                name = 'S%c' % 65
+                species[name] = species_def(name, rng, 2, 25100, 1)
+                b36 = '0123456789ABCDEFGHIJKLMNOPQRSTUVWXYZ'
+                species[name]['tnames'] = ['T' + b36[i // 46656 % 36] + b36[i // 1296 % 36] + b36[i // 36 % 36] + b36[i % 36] for i in range(25100)]
+                species[name]['tpos'] = rng.uniform(-1.5, 1.5, (25100, 3))          # a compact image (names of five characters)
+                species[name].pop('unloaded', None)
+                unloaded = [s_ for s_ in unloaded if s_ != name]
+                nm = max(nm, 12)
             names = list(species)
             block = rng.random() < 0.5
             mols = []
             while len(mols) < nm:
                 mols += [names[int(rng.integers(0, nsp))]] * (int(rng.integers(1, 15)) if block else 1)
             mols = mols[:nm]
+            if tid % 150 == 7:
+                mols = (['SA'] * 4 + mols)[:max(nm, 12)]
             loaded = [s for s in species if s not in unloaded and s in set(mols)]
-            with_end = [s for s in loaded if rng.random() < 0.75]
+            with_end = [s for s in loaded if rng.random() < 0.75 or (tid % 150 == 7 and s == 'SA')]
             ops = []
             late = None
             if with_end and rng.random() < 0.3:
